@@ -235,4 +235,47 @@ func srcTempFiles(f *facts, o *out) {
 		})
 	}
 	boolFact("src_defer_cleanup", deferCleanup, deferOK, true)
+
+	// ---- PrepareEnvironment: once createTemporaryFiles has succeeded nothing may fail any more (the caller gets
+	//      the paths only from the final return; an error return after that point would orphan the files):
+	//      filePaths, ... := createTemporaryFiles(...); if err != nil { return }; <no further return>; return ..., nil
+	noLate, noLateOK := false, false
+	if fd := f.funcDecl(prep, "PrepareEnvironment"); fd != nil && fd.Body != nil {
+		list := fd.Body.List
+		for i, st := range list {
+			as, ok := st.(*ast.AssignStmt)
+			if !ok || len(as.Rhs) != 1 {
+				continue
+			}
+			call, ok := as.Rhs[0].(*ast.CallExpr)
+			if !ok {
+				continue
+			}
+			if _, name := callName(call); name != "createTemporaryFiles" {
+				continue
+			}
+			noLateOK, noLate = true, true
+			rest := list[i+1:]
+			if len(rest) > 0 {
+				if is, ok := rest[0].(*ast.IfStmt); ok {
+					be, ok := is.Cond.(*ast.BinaryExpr)
+					if ok && be.Op == token.NEQ && identName(be.X) == "err" && identName(be.Y) == "nil" && is.Init == nil {
+						rest = rest[1:]
+					}
+				}
+			}
+			for j, nx := range rest {
+				if rs, ok := nx.(*ast.ReturnStmt); ok && j == len(rest)-1 {
+					if n := len(rs.Results); n == 0 || identName(rs.Results[n-1]) != "nil" {
+						noLate = false
+					}
+					continue
+				}
+				if hasReturn(nx) {
+					noLate = false
+				}
+			}
+		}
+	}
+	boolFact("src_prepare_no_late_error", noLate, noLateOK, true)
 }
